@@ -116,3 +116,22 @@ def specWalk (snap : List Snap) (target : Path) (out : List StatE) : SpecVerdict
   return ⟨true, ""⟩
 
 end Fsm
+
+namespace Fsm
+
+/-- SubDirFS.Walk (fs.go): named sub-roots in bytewise name order, each sub-walk prefixed with its name; link names of hard
+links are prefixed, absolute symlink targets are re-rooted below the sub-root. -/
+def subDirWalk (dirs : List (StatE × List Snap)) : List StatE :=
+  let sorted := dirs.foldl (fun acc d =>
+    let rec ins : List (StatE × List Snap) → List (StatE × List Snap)
+      | [] => [d]
+      | x :: xs => if strLt d.1.path x.1.path then d :: x :: xs else x :: ins xs
+    ins acc) []
+  sorted.flatMap fun (root, snap) =>
+    root :: (walkHL snap []).map fun s =>
+      let ln := if s.linkname = [] then [] else
+        if s.isSymlink then (if s.linkname.head? = some 47 then joinB [[47] ++ root.path, s.linkname] else s.linkname)
+        else joinB [root.path, s.linkname]
+      { s with path := joinB [root.path, s.path], linkname := ln }
+
+end Fsm
